@@ -1,0 +1,30 @@
+//go:build verif
+
+// Package verifhook provides yield points for the verification harness in /verif.
+// With the build tag `verif` a handler installed by the harness is called at every site;
+// the handler may park the calling goroutine (controlled scheduling). It never changes which
+// operations the instrumented code executes.
+package verifhook
+
+import "sync/atomic"
+
+// Enabled reports whether the package was built with the `verif` tag.
+const Enabled = true
+
+var handler atomic.Pointer[func(site string)]
+
+// Set installs (or, with nil, removes) the yield handler.
+func Set(h func(site string)) {
+	if h == nil {
+		handler.Store(nil)
+		return
+	}
+	handler.Store(&h)
+}
+
+// At marks a shared-memory operation that follows immediately.
+func At(site string) {
+	if h := handler.Load(); h != nil {
+		(*h)(site)
+	}
+}
